@@ -19,14 +19,17 @@ from mc import env, mibspec, pysnmp_rec, refir
 from mc.catalogue import U32, U64
 
 BOUNDS = {
-    'quick': 'refinements: lists of <=2 items over an 8-item range alphabet x 3 placements x all type words; '
+    'quick': 'refinements: lists of <=2 items over a 32-item range alphabet (every ordered pair of 7 boundary points, literals of every class) x 3 placements x all type words; '
              'defaults: all notations x chain length 0..2 x local/imported',
     'thorough': 'refinements: lists of <=3 items; defaults: chain length 0..3, every refinement position',
 }
 ASSUMPTIONS = ['defaults are compared by denotation (int / octets / label set / OID), not by the string form chosen',
                'SNMPv2-SMI stand-in defines the application types as RFC 2578 does']
 
-RANGE_ALPHA = [(0,), (-1,), (U32 + 1,), (0, 10), (-U64, U64), ("'ff'H",), ("'0101'B", "'ffff'h"), (U32, U32 + 1)]
+_PTS = [-U64, -10, -1, 0, 1, 10, U32 + 1]
+RANGE_ALPHA = [(0,), (-1,), (U32 + 1,), ("'ff'H",), ("'00'H",)] + \
+              [(a, b) for i, a in enumerate(_PTS) for b in _PTS[i + 1:]] + \
+              [(0, U64), ("'0101'B", "'ffff'h"), ("'00'h", "'ff'H"), (-5, "'0'B"), (U32, U32 + 1), (0, 0)]
 ENUMS = [[('up', 1)], [('up', 1), ('down', 2)], [('zero', 0), ('neg-one', -1), ('big', 2147483647)],
          [('c', 3), ('a', 1), ('b', 2)]]
 BITSETS = [[('b0', 0)], [('b0', 0), ('b1', 1), ('b-9', 9)], [('hi', 7), ('lo', 0)]]
